@@ -84,6 +84,15 @@ fn gen_indic_model(rng: &mut Rng) -> Model {
             w.cons = if rng.chance(0.5) { Uuid::nil() } else { uuid(rng) };
         }
     }
+    // window constructions that exist but whose glazing or frame does not resolve (their own F_f and shading factor still apply)
+    for c in m.cons.wincons.iter_mut() {
+        if rng.chance(0.08) {
+            c.glass = if rng.chance(0.5) { Uuid::nil() } else { uuid(rng) };
+        }
+        if rng.chance(0.08) {
+            c.frame = if rng.chance(0.5) { Uuid::nil() } else { uuid(rng) };
+        }
+    }
     // same surfaces, outlines with a redundant vertex or another start corner
     crate::gen::model::vary_outlines(rng, &mut m, 0.1);
     // stale adjacent-space references on elements that are not partitions (left over when a partition becomes a facade)
